@@ -262,4 +262,4 @@ pub fn read_page(page_pool: &PagePool, fd: &File, pn: u64) -> std::io::Result<Fa
 
 #[cfg(kani)]
 #[path = "/verif/units/kani/io_mod.rs"]
-mod verif_kani;
+pub(crate) mod verif_kani;
